@@ -230,6 +230,72 @@ class FilterRig(object):
         return event
 
 
+AT_SEPARATORS = [" ", "  ", "\t", " \t ", "   "]
+
+
+class StreamRig(FilterRig):
+    """
+    The same filter reached through the second entry point: every command / @-command is a line
+    handed to StreamProcessor.process_line (the processor works on its own deep copy of the
+    state, which is the state this rig exposes).  Events have the shape of FilterRig's.
+    """
+
+    def __init__(self, cfg=None, salt=0):
+        import io
+        from octoprint_excluderegion.StreamProcessor import StreamProcessor
+        FilterRig.__init__(self, cfg)
+        self.proc = StreamProcessor(io.BytesIO(b""), self.handlers)
+        self.handlers = self.proc.gcodeHandlers
+        self.state = self.handlers.state
+        self.salt = salt
+        self.count = 0
+
+    @staticmethod
+    def _lines(ret):
+        return [part for part in re.split(r"\r?\n", ret) if part != ""]
+
+    def gcode(self, cmd, extra=None):
+        gcode, _ = octo_gcode(cmd)
+        event = {"ev": "g", "in": alpha_cmd(cmd, extra), "exc": "", "shape": True,
+                 "hascode": gcode is not None}
+        src = cmd + "\n"
+        try:
+            ret = self.proc.process_line(src)
+            if ret is None:
+                kind, out = "suppress", []
+            elif ret == src:
+                kind, out = "unchanged", []
+            else:
+                kind, out = "list", self._lines(ret)
+            shape = ret is None or (isinstance(ret, str) and ret.endswith("\n") and bool(out or
+                                                                                         ret == src))
+        except Exception as err:  # pylint: disable=broad-except
+            kind, out, shape = "exc", [], False
+            event["exc"] = type(err).__name__
+        event.update({"res": kind, "out": [alpha_cmd(x) for x in out], "shape": shape,
+                      "st": alpha_state(self.state)})
+        return event
+
+    def at(self, command, parameters, streaming=False):
+        self.count += 1
+        sep = AT_SEPARATORS[(self.salt + self.count) % len(AT_SEPARATORS)]
+        src = "@" + command + ((sep + parameters) if parameters else "") + "\n"
+        event = {"ev": "at", "exc": "", "shape": True,
+                 "in": {"txt": "@" + command + " " + parameters,
+                        "acts": self.classify_at(command, parameters), "streaming": False}}
+        try:
+            ret = self.proc.process_line(src)
+            # an @-line that is returned as it came was not consumed: nothing reaches the printer
+            out = [] if (ret is None or ret == src) else self._lines(ret)
+            kind = "list" if out else "suppress"
+        except Exception as err:  # pylint: disable=broad-except
+            kind, out = "exc", []
+            event["exc"] = type(err).__name__
+        event.update({"res": kind, "out": [alpha_cmd(x) for x in out],
+                      "st": alpha_state(self.state)})
+        return event
+
+
 _SETTINGS_READY = [False]
 
 
